@@ -94,8 +94,15 @@ def bounded(ctx: Ctx, d: int, workers: int, c: Optional[Counter] = None) -> Coun
 
 
 def priority(ctx: Ctx, names: List[str], c: Optional[Counter] = None) -> Counter:
-    """For each name: the schedule in which that thread is chosen only when no other thread is enabled."""
+    """For each name: the schedule in which that thread is chosen only when no other thread is enabled; plus the round-robin schedule."""
     c = c or Counter()
+    x = run_once(ctx, [], policy=prims.FairPolicy())
+    c.inc('executions')
+    c.inc('priority_schedules')
+    c.inc('points', len(x.points))
+    c.inc('steps', x.nsteps)
+    c.see('status', x.status)
+    ctx.judge(x, c, ['priority', '@fair'])
     for nm in names:
         x = run_once(ctx, [], policy=prims.PriorityPolicy(nm))
         c.inc('executions')
